@@ -460,22 +460,33 @@ class ExhaustiveInterleavings(Bounded):
              "two sides agree per option on who has it enabled (option tables and application callbacks)")
     scope = ("breadth-first over distinct states of the real objects (snapshot: both option tables, both pipes, what the "
              "applications were told, unfired Deferreds per slot), states expanded with the largest request budget they are "
-             "reachable with; requests restricted to those the requester's own constant policy accepts. "
-             "quick: 1 option, all 16x16 (perform, allow) policy pairs, <= 6 requests; 2 options, 5 policy pairs "
-             "(all-accept; B refuses all; B performs 0 / allows 1; split perform; split allow), <= 3 requests. "
-             "thorough: 2 options, the same 5 policy pairs, <= 6 requests. Deliveries are whole 3-byte commands in pipe "
-             "order (byte-level splitting is exercised by RandomRuns). case = ('path', config, actions) or "
-             "('loop', config, actions, delivery cycle); config = (nopts, (performA, allowA), (performB, allowB))")
+             "reachable with; requests restricted to those the requester's own constant policy accepts; deliveries are "
+             "whole 3-byte commands in pipe order (byte-level splitting is exercised by RandomRuns). "
+             "quick: 1 option, all 16x16 (perform, allow) policy pairs, <= 6 requests (the state space is complete after 4: "
+             "108 states when everything is accepted); 2 options, all 136 unordered policy pairs (A and B are the same "
+             "class, so (p,q) and (q,p) are mirror images), <= 3 requests; 2 options, 5 named policy pairs (all-accept; "
+             "B refuses all; B performs 0 / allows 1; split perform; split allow), <= 4 requests; 3 options all-accept, "
+             "<= 3 requests. thorough: the 136 pairs with <= 4 requests, the 5 named pairs with <= 6 requests (22904 "
+             "states for all-accept), 3 options all-accept <= 4 requests. "
+             "case = ('path', config, actions) or ('loop', config, actions, delivery cycle); "
+             "config = (nopts, (performA, allowA), (performB, allowB))")
     functions = ["Telnet.will", "Telnet.wont", "Telnet.do", "Telnet.dont", "Telnet.dataReceived",
                  "Telnet.telnet_WILL", "Telnet.telnet_WONT", "Telnet.telnet_DO", "Telnet.telnet_DONT"]
 
     def cases(self, tier, rng):
+        quick = tier == "quick"
         one = all_policies(1)
         for pa in one:
             for pb in one:
                 yield from explore((1, pa, pb), 6)
+        two = all_policies(2)
+        for i, pa in enumerate(two):
+            for pb in two[i:]:
+                yield from explore((2, pa, pb), 3 if quick else 4)
         for pa, pb in TWO_OPTION_POLICIES:
-            yield from explore((2, pa, pb), 3 if tier == "quick" else 6)
+            yield from explore((2, pa, pb), 4 if quick else 6)
+        full = ((0, 1, 2), (0, 1, 2))
+        yield from explore((3, full, full), 3 if quick else 4)
 
     def nontrivial(self, case):
         return len(case[2]) >= 2
@@ -542,14 +553,14 @@ class RandomRuns(Bounded):
     title = ("long seeded random runs of two real Telnet endpoints (random constant policies, requests only for what the "
              "requester's own policy accepts) with the pipes delivered in random byte pieces: same oracle as "
              "ExhaustiveInterleavings, judged at every moment both pipes are empty and after the final drain")
-    scope = ("seeded: quick 400 runs, thorough 6000 runs; 1-3 options, 8-60 requests per run, request/delivery mix 0.2/0.5/0.8, "
+    scope = ("seeded: quick 3000 runs, thorough 40000 runs; 1-3 options, 8-60 requests per run, request/delivery mix 0.2/0.5/0.8, "
              "policies all-accept (40%) or random subsets; half of the runs deliver 1-7 bytes at a time (commands split and "
              "coalesced), half whole commands; a run that has not drained after 40*requests+200 steps is a failure. "
              "case = (seed, nopts, nrequests, bytewise)")
     functions = ExhaustiveInterleavings.functions
 
     def cases(self, tier, rng):
-        for i in range(400 if tier == "quick" else 6000):
+        for i in range(3000 if tier == "quick" else 40000):
             yield (rng.getrandbits(32), rng.choice([1, 2, 2, 3]), rng.choice([8, 15, 30, 60]), i % 2 == 0)
 
     def check(self, case):
